@@ -69,7 +69,58 @@ type ModSet struct {
 	RootTail   []string            // expected last lines of stdout: the root's calls after all imports
 	Invisible  []invisibleName     // names the root must NOT be able to use (model)
 	RootImps   [][]int             // per root import: modules it names directly
+	// Structs: the set carries the Kombination scenario (k_a.ddp, k_b.ddp: same-named public Kombinationen with different
+	// defaults, a private field, a Kombination whose field default is a value of the module's own Punkt)
+	Structs       bool
+	structVals    [5]int // defaults: a.x, a.geheim, b.x, b.radius, root's own x
+	structVariant int
 }
+
+const structModA = `Binde "aus" ein.
+
+Wir nennen die öffentliche Kombination aus
+	der öffentlichen Zahl x mit Standardwert %d,
+	der Zahl geheim mit Standardwert %d,
+	der öffentlichen Zahl verborgen mit Standardwert 1,
+einen Punkt, und erstellen sie so:
+	"ein a-Punkt"
+
+Die öffentliche Funktion a_geheim mit dem Parameter p vom Typ Punkt, gibt eine Zahl zurück, macht:
+	Gib geheim von p zurück.
+Und kann so benutzt werden:
+	"das Geheimnis von <p> laut a"
+
+Die öffentliche Funktion mache_a gibt einen Punkt zurück, macht:
+	Gib ein a-Punkt zurück.
+Und kann so benutzt werden:
+	"ein Punkt wie a ihn macht"
+`
+
+const structModB = `Binde "aus" ein.
+
+Wir nennen die öffentliche Kombination aus
+	der öffentlichen Zahl x mit Standardwert %d,
+	der Zahl verborgen mit Standardwert 2,
+einen Punkt, und erstellen sie so:
+	"ein b-Punkt"
+
+Die öffentliche Funktion mache_b gibt einen Punkt zurück, macht:
+	Gib ein b-Punkt zurück.
+Und kann so benutzt werden:
+	"ein Punkt wie b ihn macht"
+
+Wir nennen die öffentliche Kombination aus
+	dem öffentlichen Punkt mitte mit Standardwert ein b-Punkt,
+	der öffentlichen Zahl radius mit Standardwert %d,
+einen Kreis, und erstellen sie so:
+	"ein Kreis"
+
+Die öffentliche Funktion b_mitte_x gibt eine Zahl zurück, macht:
+	Gib x von mitte von (ein Kreis) zurück.
+Und kann so benutzt werden:
+	"das x der Mitte laut b"
+`
+
 
 type invisibleName struct {
 	Kind string // private-func | private-var | unlisted | not-imported
@@ -340,6 +391,16 @@ func genModuleSet(r *prng.R, o genModOpts) *ModSet {
 		}
 	}
 
+	// same-named Kombinationen of two modules outside the import graph of the model (no initialiser markers)
+	if !o.Faulty && r.Chance(0.5) {
+		ms.Structs = true
+		d := r.Perm(80)
+		ms.structVals = [5]int{d[0] + 10, d[1] + 10, d[2] + 10, d[3] + 10, d[4] + 10}
+		ms.structVariant = r.Intn(2)
+		ms.Tree.Files["k_a.ddp"] = []byte(fmt.Sprintf(structModA, ms.structVals[0], ms.structVals[1]))
+		ms.Tree.Files["k_b.ddp"] = []byte(fmt.Sprintf(structModB, ms.structVals[2], ms.structVals[3]))
+		kinds["kombinationen"] = true
+	}
 	// render
 	ms.Tree.Files["aus.ddp"] = []byte(ausModule)
 	for _, m := range ms.Mods {
@@ -529,6 +590,28 @@ func renderRootBody(ms *ModSet, b *strings.Builder) {
 		}
 	}
 	fmt.Fprintf(b, "Die Funktion hilfs gibt nichts zurück, macht:\n\tdrucke \"call m0:hilfs\".\nUnd kann so benutzt werden:\n\t\"hilfs\"\n\n")
+	if ms.Structs {
+		v := ms.structVals
+		show := func(expr string, want int) {
+			fmt.Fprintf(b, "drucke ((%s) als Text).\n", expr)
+			ms.RootTail = append(ms.RootTail, fmt.Sprint(want))
+		}
+		b.WriteString("Binde Kreis und b_mitte_x aus \"k_b\" ein.\n")
+		if ms.structVariant == 0 {
+			// a's Punkt by name, b's Punkt only inside b's Kreis
+			b.WriteString("Binde \"k_a\" ein.\n")
+			show("x von (ein a-Punkt)", v[0])
+			show("das Geheimnis von (ein a-Punkt) laut a", v[1])
+			show("x von (ein Punkt wie a ihn macht)", v[0])
+		} else {
+			// the root's own private Punkt, which only happens to be called like b's
+			fmt.Fprintf(b, "Wir nennen die Kombination aus\n\tder Zahl x mit Standardwert %d,\neinen Punkt, und erstellen sie so:\n\t\"ein eigener Punkt\"\n", v[4])
+			show("x von (ein eigener Punkt)", v[4])
+		}
+		show("x von mitte von (ein Kreis)", v[2])
+		show("das x der Mitte laut b", v[2])
+		show("radius von (ein Kreis)", v[3])
+	}
 	b.WriteString("hilfs.\n")
 	ms.RootTail = append(ms.RootTail, "call m0:hilfs")
 	var fnames []string
